@@ -291,10 +291,13 @@ def gen_program(r, features=None, n_units=None, want_lib=None):
 
     kinds = P.probe_kinds
 
-    def probe(u, kind, ident, fmt, *args, thread=False):
+    def probe(u, kind, ident, fmt, *args, thread=False, guard=None):
         kinds.add(kind)
         a = "".join(", " + x for x in args)
-        (u.tprobes if thread else u.probes).append(f'rt_line("{kind}", "{u.name}:{ident}", "{fmt}"{a});')
+        line = f'rt_line("{kind}", "{u.name}:{ident}", "{fmt}"{a});'
+        if guard:
+            line = f"\n{guard}\n    {line}\n#endif"
+        (u.tprobes if thread else u.probes).append(line)
 
     # ---- strong functions and data (always) ---------------------------------------------------
     funcs, datas = [], []
@@ -576,12 +579,19 @@ def gen_program(r, features=None, n_units=None, want_lib=None):
                 if r.random() < 0.7:
                     probe(u, "ifunc", s.name, "%d", f"{s.name}(2)")
                     if s.unit.group == u.group and r.random() < 0.7:
-                        u.defs.append(f"NOINLINE static const void *{u.name}_addr_{s.name}(void) {{ return (const void *)(uintptr_t){s.name}; }}")
-                        probe(u, "ifunc", "&" + s.name, "%s", f"rt_describe({u.name}_addr_{s.name}())")
+                        # Address identity of an ifunc is only probed where GNU ld itself keeps it:
+                        # in position-dependent code, and for default-visibility ifuncs in -fPIC code
+                        # (every reference goes through the GOT or a data word). With -fpie, or for
+                        # hidden/static ifuncs in PIC code, GNU ld 2.40 resolves PC-relative address
+                        # loads to the PLT entry and GOT/data words to the resolved function, so
+                        # `&f` differs inside one program (ld.lld does not; wild follows GNU ld).
+                        g = "#if !defined(__PIE__)" if s.vis == "default" else "#if !defined(__PIC__)"
+                        u.defs.append(f"{g}\nNOINLINE static const void *{u.name}_addr_{s.name}(void) {{ return (const void *)(uintptr_t){s.name}; }}\n#endif")
+                        probe(u, "ifunc", "&" + s.name, "%s", f"rt_describe({u.name}_addr_{s.name}())", guard=g)
                         if r.random() < 0.5:
-                            u.defs.append(f"static int (*{u.name}_ifp_{s.name})(int) = {s.name};")
+                            u.defs.append(f"{g}\nstatic int (*{u.name}_ifp_{s.name})(int) = {s.name};\n#endif")
                             probe(u, "ifunc", "ptr->" + s.name, "%s %d", f"rt_describe((const void *)(uintptr_t){u.name}_ifp_{s.name})",
-                                  f"{u.name}_ifp_{s.name}(4)")
+                                  f"{u.name}_ifp_{s.name}(4)", guard=g)
 
     # ---- string literals ----------------------------------------------------------------------------------
     if "strings" in fs:
